@@ -63,6 +63,8 @@ Failing closed
 Any failure prints `SHADOW-GEN-ERROR: ...` and exits with status 2 (never 1).
 
 Output is deterministic (sorted walk, no time stamps). <out>/<name> is deleted and recreated.
+All shadows are generated and checked in memory before anything is written; if any of them fails,
+the directories of ALL shadows of the run are removed, so a stale shadow can never be compiled.
 """
 
 import argparse
@@ -660,7 +662,7 @@ def list_sources(crate_dir):
     return sorted(files)
 
 
-def generate(name, spec, repo, out_root, arm_model_path):
+def generate(name, spec, repo, arm_model_path):
     crate_dir = os.path.join(repo, spec["crate"])
     manifest = os.path.join(crate_dir, "Cargo.toml")
     if not os.path.isfile(manifest):
@@ -711,24 +713,27 @@ def generate(name, spec, repo, out_root, arm_model_path):
         if got and rid not in EXPECT[name]:
             notes.append(f"{rid}: {got} (pristine 0)")
 
-    dest = os.path.join(out_root, name)
+    total = sum(counts.values())
+    detail = " ".join(f"[{rid}]={counts[rid]}" for rid in sorted(counts) if counts[rid])
+    summary = f"shadow {name}: from={spec['crate']} files={len(outputs)} rewrites={total} {detail}"
+    return outputs, summary, notes
+
+
+def remove_tree(dest):
     if os.path.lexists(dest):
         if os.path.isdir(dest) and not os.path.islink(dest):
             shutil.rmtree(dest)
         else:
             os.remove(dest)
+
+
+def write_tree(dest, outputs):
+    remove_tree(dest)
     for rel in sorted(outputs):
         p = os.path.join(dest, rel)
         os.makedirs(os.path.dirname(p), exist_ok=True)
         with open(p, "w", encoding="utf-8", newline="") as f:
             f.write(outputs[rel])
-
-    total = sum(counts.values())
-    detail = " ".join(f"[{rid}]={counts[rid]}" for rid in sorted(counts) if counts[rid])
-    print(f"shadow {name}: from={spec['crate']} files={len(outputs)} rewrites={total} {detail}")
-    for nt in notes:
-        print(f"SHADOW-GEN-NOTE: {name}: match count differs from the pristine tree: {nt}",
-              file=sys.stderr)
 
 
 def main(argv):
@@ -749,12 +754,28 @@ def main(argv):
         raise GenError(f"{args.repo}: no such directory")
     if not os.path.isfile(os.path.join(args.arm_model, "Cargo.toml")):
         raise GenError(f"{args.arm_model}: arm_model crate not found")
-    os.makedirs(args.out, exist_ok=True)
-    for name in shadows:  # insertion order: deterministic
-        if args.only and name not in args.only:
-            continue
-        generate(name, shadows[name], os.path.abspath(args.repo), os.path.abspath(args.out),
-                 args.arm_model)
+    out_root = os.path.abspath(args.out)
+    os.makedirs(out_root, exist_ok=True)
+    names = [n for n in shadows if not args.only or n in args.only]  # insertion order
+    # Two phases: everything is generated and checked in memory first. If any shadow fails,
+    # every shadow directory of this run is removed, so a stale tree can never be compiled.
+    try:
+        results = [(n, generate(n, shadows[n], os.path.abspath(args.repo), args.arm_model))
+                   for n in names]
+        for n, (outputs, _, _) in results:
+            write_tree(os.path.join(out_root, n), outputs)
+    except BaseException:
+        for n in names:
+            try:
+                remove_tree(os.path.join(out_root, n))
+            except OSError:
+                pass
+        raise
+    for n, (_, summary, notes) in results:
+        print(summary)
+        for nt in notes:
+            print(f"SHADOW-GEN-NOTE: {n}: match count differs from the pristine tree: {nt}",
+                  file=sys.stderr)
     return 0
 
 
